@@ -275,6 +275,19 @@ NOSAN void __sanitizer_cov_trace_pc_guard_init(uint32_t *start, uint32_t *stop) 
     if (start == stop || *start) return;
     for (uint32_t *g = start; g < stop; g++) *g = ++g_nguards;
 }
+// pc-table: the PC of every guard, hit or not, in guard order (one table per object file, same order as the guards)
+// (plain zero-initialised storage: this runs from the library's constructors, before this file's own)
+static uintptr_t *g_all_pcs;
+static size_t g_all_pcs_n, g_all_pcs_cap;
+NOSAN void __sanitizer_cov_pcs_init(const uintptr_t *beg, const uintptr_t *end) {
+    for (const uintptr_t *p = beg; p < end; p += 2) {
+        if (g_all_pcs_n == g_all_pcs_cap) {
+            g_all_pcs_cap = g_all_pcs_cap ? 2 * g_all_pcs_cap : 4096;
+            g_all_pcs = (uintptr_t *)realloc(g_all_pcs, g_all_pcs_cap * sizeof(uintptr_t));
+        }
+        g_all_pcs[g_all_pcs_n++] = p[0];
+    }
+}
 NOSAN void __sanitizer_cov_trace_pc_guard(uint32_t *guard) {
     uint32_t i = *guard;
     if (g_covhit && !g_covhit[i]) {
@@ -295,6 +308,13 @@ NOSAN void __sanitizer_cov_store8(void *) { on_event(); }
 NOSAN void __sanitizer_cov_store16(void *) { on_event(); }
 }
 
+void dump_unhit_pcs(const char *path) {
+    FILE *f = fopen(path, "w");
+    if (!f || g_all_pcs_n != g_nguards) return;
+    for (uint32_t i = 1; i <= g_nguards; i++)
+        if (!g_covhit[i]) fprintf(f, "0x%lx\n", (unsigned long)(g_all_pcs[i - 1] - g_lib.base));
+    fclose(f);
+}
 bool func_was_hit(const char *name) {
     for (uint32_t i = 1; i <= g_nguards; i++) {
         if (!g_covhit[i]) continue;
@@ -304,12 +324,14 @@ bool func_was_hit(const char *name) {
     return false;
 }
 std::map<std::string, std::pair<int, int>> coverage_by_function() {
-    std::map<std::string, std::pair<int, int>> m;
+    std::map<std::string, std::pair<int, int>> m; // function -> (guards hit, guards present)
+    bool have_table = g_all_pcs_n == g_nguards;
     for (uint32_t i = 1; i <= g_nguards; i++) {
-        if (!g_covhit[i]) continue;
-        const FuncSym *f = g_lib.func_at(g_covpc[i]);
+        uintptr_t pc = have_table ? g_all_pcs[i - 1] : g_covpc[i];
+        if (!have_table && !g_covhit[i]) continue;
+        const FuncSym *f = g_lib.func_at(pc);
         std::string key = f ? (f->file.empty() ? f->name : f->file + ":" + f->name) : std::string("?");
-        m[key].first++;
+        if (g_covhit[i]) m[key].first++;
         m[key].second++;
     }
     return m;
